@@ -231,7 +231,7 @@ func (fr *Frame) afterDefers(after *State) *State {
 		un.Assume(still)
 		if un.reach.S != "false" {
 			delete(un.heaps, pk)
-			fr.escaped = append(fr.escaped, panicState{st: un, val: after.heaps[pvn]})
+			fr.escaped = append(fr.escaped, panicState{st: un, val: after.heaps[pvn], why: "panic not recovered by the deferred calls"})
 		}
 	}
 	cont := after.Clone()
@@ -378,6 +378,9 @@ func VerifyLemma(L *Loaded, name string, ct *Contract) (res *FuncResult) {
 		}
 	}
 	fr.attachAxioms(st)
+	for _, ln := range ct.Uses {
+		fr.assumeLemma(ln, st)
+	}
 	lookupWith := func(m map[string]Val) func(cp ClauseParam, old bool) Val {
 		return func(cp ClauseParam, old bool) Val {
 			if v, ok := m[cp.Name]; ok {
@@ -581,7 +584,7 @@ func VerifyFunction(L *Loaded, name string, ct *Contract, prop string) (res *Fun
 	if ct != nil {
 		for i, p := range fr.panics {
 			if ct.NoPanic {
-				vc.Oblige("nopanic", fmt.Sprintf("exit%d", i), fn.Pos(), p.st, False, "function must not panic")
+				vc.Oblige("nopanic", fmt.Sprintf("exit%d", i), fn.Pos(), p.st, False, "function must not panic: "+p.why)
 				continue
 			}
 			for _, cl := range ct.Signals {
